@@ -3,7 +3,9 @@ package rules
 import (
 	"fmt"
 	"go/types"
+	"path/filepath"
 	"sort"
+	"strings"
 
 	"golang.org/x/tools/go/ssa"
 
@@ -18,19 +20,50 @@ import (
 // scan). A negated or inverted test (`if err == nil { return err }`) makes the failing call look like a success and lets
 // the function carry on with a half-written segment, index or list.
 func ruleErrorGates(c *eng.Ctx, pkgs ...string) int {
-	p := c.P
 	want := map[string]bool{}
 	for _, k := range pkgs {
 		want[k] = true
 	}
+	return ruleErrorGatesWhere(c, fmt.Sprint(pkgs), func(fn *ssa.Function) bool { return fn.Pkg != nil && want[ir.Short(fn.Pkg.Pkg.Path())] })
+}
+
+// serverGateExceptions: places in package server where going on after a failed call is the design (function → callee → why).
+// "*" stands for every callee of the function.
+var serverGateExceptions = map[string]map[string]string{
+	"server.(*raftNode).applyOperation":             {"github.com/hashicorp/raft.Future.Error": "the failed barrier future is handed to the caller, which reads its error"},
+	"server.(*publishAsyncSession).publishLoop":     {"*": "a failure of one message is reported on the stream and the loop goes on to the next; the function's success return is the end of the client's stream"},
+	"server.(*cursorManager).getLatestCursorOffset": {"server/protocol.Cursor.Unmarshal": "an undecodable message in the cursors stream is logged and skipped, the scan goes on"},
+	"server.(*Server).Start":                        {"server/telemetry.New": "telemetry is optional: a collector that cannot be set up is logged, the server starts"},
+}
+
+// ruleServerErrorGates (R01.13s): the error-gate rule over the functions of package server that live in the files the
+// property is anchored in.
+func ruleServerErrorGates(c *eng.Ctx, files ...string) int {
+	inFile := map[string]bool{}
+	for _, f := range files {
+		inFile[f] = true
+	}
+	return ruleErrorGatesWhere(c, "package server, files "+strings.Join(files, ", "), func(fn *ssa.Function) bool {
+		if fn.Pkg == nil || ir.Short(fn.Pkg.Pkg.Path()) != "server" {
+			return false
+		}
+		pos := c.P.Fset.Position(fn.Pos())
+		return inFile[filepath.Base(pos.Filename)]
+	})
+}
+
+func ruleErrorGatesWhere(c *eng.Ctx, what string, include func(fn *ssa.Function) bool) int {
+	p := c.P
+	pkgs := what
 	errT := types.Universe.Lookup("error").Type()
 	n := 0
 	type finding struct{ construct, pos, detail string }
 	var bad []finding
 	for _, fn := range p.Funcs {
-		if fn.Pkg == nil || !want[ir.Short(fn.Pkg.Pkg.Path())] {
+		if !include(fn) {
 			continue
 		}
+		exc := serverGateExceptions[ir.FuncKey(ir.Outermost(fn))]
 		// success returns: the error result is the constant nil
 		var succ []ssa.Instruction
 		idx := errorResultIndex(fn.Signature)
@@ -75,6 +108,9 @@ func ruleErrorGates(c *eng.Ctx, pkgs ...string) int {
 			case "os.Stat", "os.Lstat":
 				return // existence probes: the error is the answer
 			}
+			if exc != nil && (exc["*"] != "" || exc[eng.CalleeRef(&call.Call)] != "") {
+				return // going on after this failure is the design (table above)
+			}
 			okEdge := eng.CmpEdges(fn, errOf, eng.NilConst, eng.EQ)
 			if len(okEdge) == 0 {
 				return // the error is not tested against nil here (returned as is, or deliberately dropped: other rules)
@@ -113,4 +149,12 @@ func ruleErrorGates(c *eng.Ctx, pkgs ...string) int {
 	c.Check(n > 0, "tested error results found", "", "error gates evaluated", "no tested error result found in the packages given")
 	c.Note("error gates: %d tested error results in %v, %d failing", n, pkgs, len(bad))
 	return n
+}
+
+// ErrorGatesProbe runs the error-gate rule over the given packages and returns the findings (used by cmd/dbg).
+func ErrorGatesProbe(p *ir.Program, pkgs ...string) []*eng.Obligation {
+	c := eng.NewCtx(p, "probe", "quick")
+	c.Rule("PROBE", "K1")
+	ruleErrorGates(c, pkgs...)
+	return c.Obs
 }
